@@ -348,10 +348,28 @@ func ruleSApply(c *Ctx) {
 				if fa, ok := s.Addr.(*ssa.FieldAddr); ok {
 					fname := fieldName(fa.X.Type(), fa.Field)
 					if fname == "PreviousTxSatoshis" || fname == "PreviousTxScript" {
+						reported := false
 						for _, dc := range dominatingConds(b) {
 							t := atomName(env.Term(dc.cond))
 							if strings.Contains(t, ".PreviousTxSatoshis") || strings.Contains(t, ".PreviousTxScript") {
+								reported = true
 								c.Fail("S-apply", "thread.apply/unconditional/"+fname, s.Pos(), "the spent output's "+fname+" is recorded only under a condition on what the input already carries ("+shorten(t, 100)+"): a stale value on the transaction object is hashed instead of the real previous output")
+							}
+						}
+						// the same through a short-circuit condition (in != nil && (a || b)): a test of what the input
+						// carries from which the recording can be reached and can be skipped
+						for _, tb := range fn.Blocks {
+							iff, isIf := tb.Instrs[len(tb.Instrs)-1].(*ssa.If)
+							if !isIf || reported {
+								continue
+							}
+							t := atomName(env.Term(iff.Cond))
+							if !(strings.Contains(t, ".PreviousTxSatoshis") || strings.Contains(t, ".PreviousTxScript")) {
+								continue
+							}
+							if blockReaches(tb, b, nil) && exitReachableAvoiding(tb, b) {
+								reported = true
+								c.Fail("S-apply", "thread.apply/unconditional/"+fname, s.Pos(), "the spent output's "+fname+" is recorded or not depending on what the input already carries ("+shorten(t, 100)+"): a stale value on the transaction object is hashed instead of the real previous output")
 							}
 						}
 					}
@@ -438,4 +456,48 @@ func storeGuardedBy(fn *ssa.Function, env *TermEnv, addr, cond string) bool {
 		}
 	}
 	return n > 0
+}
+
+// blockReaches: to is reachable from from (through at least one edge), not passing through avoid.
+func blockReaches(from, to, avoid *ssa.BasicBlock) bool {
+	seen := map[*ssa.BasicBlock]bool{}
+	var walk func(b *ssa.BasicBlock) bool
+	walk = func(b *ssa.BasicBlock) bool {
+		for _, s := range b.Succs {
+			if s == avoid || seen[s] {
+				continue
+			}
+			if s == to {
+				return true
+			}
+			seen[s] = true
+			if walk(s) {
+				return true
+			}
+		}
+		return false
+	}
+	return walk(from)
+}
+
+// exitReachableAvoiding: some return of the function is reachable from from without passing through avoid.
+func exitReachableAvoiding(from, avoid *ssa.BasicBlock) bool {
+	seen := map[*ssa.BasicBlock]bool{}
+	var walk func(b *ssa.BasicBlock) bool
+	walk = func(b *ssa.BasicBlock) bool {
+		if _, ok := b.Instrs[len(b.Instrs)-1].(*ssa.Return); ok {
+			return true
+		}
+		for _, s := range b.Succs {
+			if s == avoid || seen[s] {
+				continue
+			}
+			seen[s] = true
+			if walk(s) {
+				return true
+			}
+		}
+		return false
+	}
+	return walk(from)
 }
